@@ -4,7 +4,7 @@
 set -e
 cd "$(dirname "$0")"
 python3 tools/gen_tables.py
-( cd coq && coq_makefile -f _CoqProject -o Makefile >/dev/null && ( timeout 3000 make -k -j16 || echo "setup: some Coq files did not build (each check rebuilds and reports its own cone)" ) )
+( cd coq && python3 -c "import sys; sys.path.insert(0,'../tools'); import vlib; rc,out=vlib.ensure_makefile(); print(out) if rc else None; sys.exit(rc)" && ( timeout 3000 make -k -j16 || echo "setup: some Coq files did not build (each check rebuilds and reports its own cone)" ) )
 python3 - <<'PY'
 import sys, os
 sys.path.insert(0, "tools")
